@@ -101,7 +101,11 @@ class StorageTools:
     @staticmethod
     def writeProfileData(profile_name, name, val):
         logger.debug("writeProfileData(profile_name=%s, name=%s, val=[omitted])" % (profile_name, name))
-        path = os.path.join(StorageTools.getStorageForProfile(profile_name), name)
+        storage = StorageTools.getStorageForProfile(profile_name)
+        if not os.path.isdir(storage):
+            # constructPath only creates the parent: a profile that was never used has no directory yet
+            os.makedirs(storage)
+        path = os.path.join(storage, name)
         logger.debug("Writing %s" % path)
 
         # write a sibling file and rename it over the target: a crash while writing must leave
